@@ -15,6 +15,7 @@ pub fn active() -> bool {
 
 /// Before every look at the real epoll instance: pool jobs and due environment actions.
 pub fn pump() {
+    crate::check_memory_ledger();
     with_stats(|s| s.enters += 1);
     let tick = with_kernel(|k| {
         k.clock_ns += k.cfg.tick_ns;
